@@ -50,9 +50,10 @@ func runPoisonNext(r *mon.Run, cc c11Case) {
 	}
 	cc.VictimTip, cc.VictimHeight, cc.HonestTip, cc.HonestHeight, cc.ByzTip = T.Idx, T.Height, X.Idx, X.Height, X.Idx
 	slot := p2plab.NextSlot()
+	act := p2plab.NewActivity()
 	prng := rand.New(rand.NewPCG(uint64(r.Seed)+913, cc.Stream))
 	mk := func(name string, i int) (*p2plab.Node, error) {
-		return p2plab.NewNode(p2plab.NodeOpts{Name: name, IP: p2plab.HonestIP(slot, i), Tree: t, Tip: T,
+		return p2plab.NewNode(p2plab.NodeOpts{Activity: act, Name: name, IP: p2plab.HonestIP(slot, i), Tree: t, Tip: T,
 			SyncInterval: time.Duration(50+prng.IntN(50)) * time.Millisecond, DiscoveryInterval: time.Hour, RPCTimeout: 2 * time.Second})
 	}
 	v, err1 := mk("victim", 0)
@@ -85,6 +86,9 @@ func runPoisonNext(r *mon.Run, cc c11Case) {
 	if cc.Mix != "H" {
 		var err error
 		b1, err = p2plab.NewByz("byz1", p2plab.ByzIP(slot, 0), t, X)
+		if err == nil {
+			b1.Activity = act
+		}
 		if err != nil {
 			r.Inconclusive(fmt.Sprintf("C11 case %d: cannot build byzantine peer: %v", cc.Stream, err))
 			closeAll(r, nodes)
@@ -120,7 +124,11 @@ func runPoisonNext(r *mon.Run, cc c11Case) {
 	t0 := time.Now()
 	reached := false
 	var announcing atomic.Bool
-	for iter := 1; time.Since(t0) < c11ProgressBound; iter++ {
+	wt := newWaiter(act, c11ProgressBound)
+	for iter := 1; ; iter++ {
+		if wt.step() != "" {
+			break
+		}
 		v.Mon.Sample()
 		if v.CM.Tip().ID == X.ID {
 			reached = true
@@ -168,7 +176,12 @@ func runPoisonNext(r *mon.Run, cc c11Case) {
 		if reached {
 			r.Count("selfcheck_block_announced_by_synced_honest_peer_adopted", 1)
 		} else {
-			r.Violation("stall:block-announced-by-synced-honest-peer-not-adopted", "a valid block announced by a connected, synced honest peer was not adopted within the bound (no Byzantine peer involved)", cc, detail)
+			if wt.verdict == "slow" {
+				slowCase(r, fmt.Sprintf("C11 stream=%d %v", cc.Stream, wt.info()))
+			} else {
+				detail["liveness"] = wt.info()
+				r.Violation("stall:block-announced-by-synced-honest-peer-not-adopted", "a valid block announced by a connected, synced honest peer was not adopted within the bound (no Byzantine peer involved)", cc, detail)
+			}
 		}
 	} else if delivered {
 		r.Count("faults_delivered", 1)
@@ -179,7 +192,12 @@ func runPoisonNext(r *mon.Run, cc c11Case) {
 			r.Count("poisoned_block_id_adopted_after_ms<2000", b2i(progressMS < 2000))
 		} else {
 			fmt.Printf("note: C11 stream=%d stall:poisoned-block-id healed_by_next_block=%v peers=%v\n", cc.Stream, healed, peersNow)
-			r.Violation("stall:poisoned-block-id:SendV2Blocks/same-id-other-body", "after a Byzantine peer served a block with the id of the next valid block but another body, the victim ignored the real block announced by its synced honest peer for the whole bound", cc, detail)
+			if wt.verdict == "slow" {
+				slowCase(r, fmt.Sprintf("C11 stream=%d %v", cc.Stream, wt.info()))
+			} else {
+				detail["liveness"] = wt.info()
+				r.Violation("stall:poisoned-block-id:SendV2Blocks/same-id-other-body", "after a Byzantine peer served a block with the id of the next valid block but another body, the victim ignored the real block announced by its synced honest peer for the whole bound", cc, detail)
+			}
 		}
 	} else {
 		r.Count("faults_not_delivered:SendV2Blocks/same-id-other-body@next-block", 1)
@@ -256,13 +274,14 @@ func runInstantSync(r *mon.Run, cc c11Case) {
 	cc.VictimTip, cc.VictimHeight, cc.HonestTip, cc.HonestHeight, cc.ByzTip = cp.Idx, cp.Height, hTip.Idx, hTip.Height, hTip.Idx
 	sc := &scene{cc: &cc, f: f, rng: rng, t: t, vTip: cp, hTip: hTip, bTip: hTip}
 	slot := p2plab.NextSlot()
+	act := p2plab.NewActivity()
 	prng := rand.New(rand.NewPCG(uint64(r.Seed)+917, cc.Stream))
 	withH := cc.Mix != "B"
 	var h *p2plab.Node
 	var nodes []*p2plab.Node
 	if withH {
 		var err error
-		h, err = p2plab.NewNode(p2plab.NodeOpts{Name: "honest", IP: p2plab.HonestIP(slot, 1), Tree: t, Tip: hTip, KeepLog: true,
+		h, err = p2plab.NewNode(p2plab.NodeOpts{Activity: act, Name: "honest", IP: p2plab.HonestIP(slot, 1), Tree: t, Tip: hTip, KeepLog: true,
 			SyncInterval: 400 * time.Millisecond, DiscoveryInterval: time.Hour, RPCTimeout: 2 * time.Second})
 		if err != nil {
 			r.Inconclusive(fmt.Sprintf("C11 case %d: cannot build honest peer: %v", cc.Stream, err))
@@ -278,6 +297,7 @@ func runInstantSync(r *mon.Run, cc c11Case) {
 		return
 	}
 	defer b1.Close()
+	b1.Activity = act
 	installHooks(sc, b1)
 	peers := []string{b1.Addr}
 	if withH {
@@ -293,14 +313,17 @@ func runInstantSync(r *mon.Run, cc c11Case) {
 	var st consensus.State
 	var blk types.Block
 	var rerr error
+	var lastAttempt time.Duration
 	for attempt := 0; attempt < 3; attempt++ {
 		d := 45 * time.Second
 		if !withH {
 			d = 6 * time.Second
 		}
 		ctx, cancel := context.WithTimeout(context.Background(), d)
+		tAttempt := time.Now()
 		st, blk, rerr = syncer.RetrieveCheckpoint(ctx, peers, cp.L.State.Index, env.Net, env.Genesis.ID())
 		cancel()
+		lastAttempt = time.Since(tAttempt)
 		if rerr == nil || !withH {
 			break
 		}
@@ -338,13 +361,18 @@ func runInstantSync(r *mon.Run, cc c11Case) {
 			detail["honest_log_tail"] = h.LogTail()
 			detail["probe_after_failure"] = probeCheckpoint(env, h.Addr, cp)
 			fmt.Printf("note: C11 stream=%d RetrieveCheckpoint failed with an honest peer listed: %v; direct probe afterwards: %v; honest log: %v\n", cc.Stream, rerr, detail["probe_after_failure"], h.LogTail())
-			r.Violation("stall:instant-sync:"+cc.Fault, "RetrieveCheckpoint failed although an honest peer holding the checkpoint was in the peer list", cc, detail)
+			if lastAttempt >= 20*time.Second {
+				// the attempts ran into their timeouts: on a saturated machine that is not a verdict
+				slowCase(r, fmt.Sprintf("C11 stream=%d RetrieveCheckpoint timed out three times with an honest peer listed (last attempt %v)", cc.Stream, lastAttempt))
+			} else {
+				r.Violation("stall:instant-sync:"+cc.Fault, "RetrieveCheckpoint failed although an honest peer holding the checkpoint was in the peer list", cc, detail)
+			}
 		}
 		closeAll(r, nodes)
 		return
 	}
 	// initialise the victim at the retrieved checkpoint and sync the rest
-	v, err := p2plab.NewNode(p2plab.NodeOpts{Name: "victim", IP: p2plab.HonestIP(slot, 0), Tree: t, Tip: cp, Checkpoint: cp, KeepLog: true,
+	v, err := p2plab.NewNode(p2plab.NodeOpts{Activity: act, Name: "victim", IP: p2plab.HonestIP(slot, 0), Tree: t, Tip: cp, Checkpoint: cp, KeepLog: true,
 		SyncInterval: time.Duration(50+prng.IntN(50)) * time.Millisecond, DiscoveryInterval: time.Duration(50+prng.IntN(50)) * time.Millisecond, RPCTimeout: 2 * time.Second})
 	if err != nil {
 		r.Inconclusive(fmt.Sprintf("C11 case %d: cannot initialise the victim at the checkpoint: %v", cc.Stream, err))
@@ -357,15 +385,20 @@ func runInstantSync(r *mon.Run, cc c11Case) {
 		r.Count("byzantine_dial_errors", 1)
 	}
 	time.Sleep(time.Duration(prng.IntN(300)) * time.Millisecond)
+	var wt *waiter
 	reached := false
 	if withH {
 		if err := v.Connect(h.Addr); err != nil {
 			r.Count("honest_connect_errors", 1)
 			detail["first_connect_error"] = err.Error()
 		}
-		t0 := time.Now()
 		var announcing atomic.Bool
-		for iter := 1; time.Since(t0) < c11ProgressBound+time.Duration(b1.Counter("silence:SendHeaders"))*c11SilenceBonus; iter++ {
+		wt = newWaiter(act, c11ProgressBound)
+		for iter := 1; ; iter++ {
+			wt.deadline = c11ProgressBound + time.Duration(b1.Counter("silence:SendHeaders"))*c11SilenceBonus
+			if wt.step() != "" {
+				break
+			}
 			v.Mon.Sample()
 			if v.CM.Tip().ID == hTip.ID {
 				reached = true
@@ -422,7 +455,12 @@ func runInstantSync(r *mon.Run, cc c11Case) {
 				sig = "stall:after-instant-sync:checkpoint-gap-not-in-peer-history"
 			}
 			detail["checkpoint_gap"] = gap
-			r.Violation(sig, "a victim initialised at a retrieved checkpoint did not reach the honest tip within the bound", cc, detail)
+			if wt.verdict == "slow" {
+				slowCase(r, fmt.Sprintf("C11 stream=%d %v", cc.Stream, wt.info()))
+			} else {
+				detail["liveness"] = wt.info()
+				r.Violation(sig, "a victim initialised at a retrieved checkpoint did not reach the honest tip within the bound", cc, detail)
+			}
 		}
 	}
 	for _, br := range v.PS.Bans() {
@@ -537,9 +575,10 @@ func runHonestPrefix(r *mon.Run, cc c11Case) {
 	}
 	cc.VictimTip, cc.VictimHeight, cc.HonestTip, cc.HonestHeight, cc.ByzTip = v0.Idx, v0.Height, ak.Idx, ak.Height, x.Idx
 	slot := p2plab.NextSlot()
+	act := p2plab.NewActivity()
 	prng := rand.New(rand.NewPCG(uint64(r.Seed)+919, cc.Stream))
 	mk := func(name string, i int, tip *chainlab.Node) (*p2plab.Node, error) {
-		return p2plab.NewNode(p2plab.NodeOpts{Name: name, IP: p2plab.HonestIP(slot, i), Tree: t, Tip: tip, KeepLog: name == "victim",
+		return p2plab.NewNode(p2plab.NodeOpts{Activity: act, Name: name, IP: p2plab.HonestIP(slot, i), Tree: t, Tip: tip, KeepLog: name == "victim",
 			SyncInterval: time.Duration(50+prng.IntN(50)) * time.Millisecond, DiscoveryInterval: time.Hour, RPCTimeout: 2 * time.Second})
 	}
 	honestFirst := cc.HonestDials
@@ -580,6 +619,7 @@ func runHonestPrefix(r *mon.Run, cc c11Case) {
 		return
 	}
 	defer b1.Close()
+	b1.Activity = act
 	if err := b1.Dial(v.Addr); err != nil {
 		r.Count("byzantine_dial_errors", 1)
 	}
@@ -613,7 +653,11 @@ func runHonestPrefix(r *mon.Run, cc c11Case) {
 	t0 := time.Now()
 	reached := false
 	var announcing atomic.Bool
-	for iter := 1; time.Since(t0) < c11ProgressBound; iter++ {
+	wt := newWaiter(act, c11ProgressBound)
+	for iter := 1; ; iter++ {
+		if wt.step() != "" {
+			break
+		}
 		v.Mon.Sample()
 		if v.CM.Tip().ID == ak.ID {
 			reached = true
@@ -692,7 +736,12 @@ func runHonestPrefix(r *mon.Run, cc c11Case) {
 			}
 			detail["victim_knows_ak"] = knowsAk
 			fmt.Printf("note: C11 stream=%d %s (%s) rolled_back=%v peers=%v\n", cc.Stream, sig, row, rolledBack, peersNow)
-			r.Violation(sig, "after rejecting a Byzantine extension of the honest chain (invalid block on top of A1..Ak) the victim did not adopt A1..Ak offered by an honest peer whose tip is exactly Ak", cc, detail)
+			if wt.verdict == "slow" {
+				slowCase(r, fmt.Sprintf("C11 stream=%d %v", cc.Stream, wt.info()))
+			} else {
+				detail["liveness"] = wt.info()
+				r.Violation(sig, "after rejecting a Byzantine extension of the honest chain (invalid block on top of A1..Ak) the victim did not adopt A1..Ak offered by an honest peer whose tip is exactly Ak", cc, detail)
+			}
 		}
 	}
 	for _, n := range nodes {
